@@ -8,6 +8,7 @@ import (
 	"fmt"
 	"math/big"
 	"math/rand"
+	"strings"
 
 	"github.com/ldclabs/cose/iana"
 	"github.com/ldclabs/cose/key"
@@ -164,12 +165,12 @@ func genSigOps(r *rand.Rand, n int) []string {
 		}
 		k := genEcScalar(r, alg)
 		extras := genCommonExtras(r, alg, sigOpsChoices)
-		form := r.Intn(4)
+		form := r.Intn(5)
 		toks := k.tokens(r, form, extras)
 		if r.Intn(8) == 0 { // x of another key, off-curve x, or an embedded coordinate that is only a tail of the true one
 			k2 := genEcScalar(r, alg)
 			bad := &ecKey{alg: alg, crv: k.crv, curve: k.curve, d: k.d, x: k2.x, y: k.y}
-			bform := 1 + r.Intn(3)
+			bform := 1 + r.Intn(4)
 			switch r.Intn(5) {
 			case 4: // compressed public key whose x is no abscissa of the curve (x+1, x+2, … mostly are not), or >= p
 				bad.x = new(big.Int).Add(k.x, big.NewInt(int64(1+r.Intn(3))))
@@ -206,7 +207,7 @@ func genSigOps(r *rand.Rand, n int) []string {
 		}
 		sig := append(rr.FillBytes(make([]byte, sz)), ss.FillBytes(make([]byte, sz))...)
 		out = append(out, "sig.topublic ecdsa "+toks, "sig.compress "+toks, "sig.verifierkey "+toks)
-		if form <= 1 {
+		if form <= 1 || form == 4 {
 			out = append(out, fmt.Sprintf("sig.sign %s %s | %s", hx(data), toks, after))
 		}
 		d2 := data
@@ -214,6 +215,18 @@ func genSigOps(r *rand.Rand, n int) []string {
 			d2 = flipBit(r, data)
 		}
 		out = append(out, fmt.Sprintf("sig.verify %s %s %s | %s", hx(d2), hx(mutateSig(r, sig)), toks, after))
+		if i%5 == 0 { // the same scalar octets as private key on two curves, one after the other: each gets its own d·G
+			d := new(big.Int).SetBytes(randBytes(r, 31))
+			d.Add(d, big.NewInt(1))
+			var lines []string
+			for _, a2 := range []int{iana.AlgorithmES256, iana.AlgorithmES384, iana.AlgorithmES512} {
+				k2 := ecKeyFromScalar(a2, d)
+				lines = append(lines, "sig.topublic ecdsa "+k2.tokensFixedD(r, 31))
+			}
+			r.Shuffle(len(lines), func(a, b int) { lines[a], lines[b] = lines[b], lines[a] })
+			out = append(out, "seq "+strings.Join(lines, " ;; "))
+			out = append(out, "seq "+lines[2]+" ;; "+lines[0])
+		}
 		if i%3 == 0 { // two different keys under one kid (see above)
 			kid := []string{"int:2", "b:" + hx(randBytes(r, 1+r.Intn(4)))}
 			kb := genEcScalar(r, alg)
